@@ -94,6 +94,33 @@ func maskNumbering(f string) string {
 	})
 }
 
+// templateBodyTexts returns, for every HTML template of a formatted file, the text between `templ …(…) {` + newline and
+// the closing brace.
+func templateBodyTexts(src string) ([]string, bool) {
+	tf, err := parser.ParseString(src)
+	if err != nil {
+		return nil, false
+	}
+	var out []string
+	for _, n := range tf.Nodes {
+		ht, ok := n.(parser.HTMLTemplate)
+		if !ok {
+			continue
+		}
+		from, to := int(ht.Range.From.Index), int(ht.Range.To.Index)
+		if from < 0 || to > len(src) || from >= to {
+			return nil, false
+		}
+		full := src[from:to]
+		hdr := "templ " + ht.Expression.Value + " {\n"
+		if !strings.HasPrefix(full, hdr) || !strings.HasSuffix(full, "}") {
+			return nil, false
+		}
+		out = append(out, full[len(hdr):len(full)-1])
+	}
+	return out, true
+}
+
 // templateFuncs cuts gofmt-ed generated code into its top-level functions and keeps those of HTML templates.
 func templateFuncs(code string) []string {
 	var out []string
@@ -145,6 +172,8 @@ func repoTemplates() []string {
 // fmtSeeds: template bodies that witnessed formatter defects (repaired or recorded) or that seeded changes needed
 // in order to manifest; they run first on every check.
 var fmtSeeds = []string{
+	"<h2>{ // only\n\t}</h2>",
+	"<h1>a{\n\t\t// go comment\n\t}<!--c--></h1>",
 	`<section title={ s }>{ children... }</section>`,
 	`<p>{ s /* c */ }</p>`,
 	`<a title="1&quot;2" data-k='a&#39;b' href="/s?q=1&amp;copy=2&amp;lt=5">x</a>`,
@@ -195,6 +224,21 @@ func runFmt(e *emitter, tier string, seed uint64, prop string) {
 				b = "ERR"
 			}
 			e.emit(src, "fmt", origin, hx(src), a, b)
+			// printer model: the real parser's tree of every template of x, and the text the real formatter wrote for its body
+			if err1 == nil && err2 == nil {
+				a0, ok0 := templateBodies(src)
+				a1, ok1 := templateBodies(f1)
+				t1, okt := templateBodyTexts(f1)
+				if ok0 && ok1 && okt && len(a0) == len(a1) && len(a0) == len(t1) && len(a0) > 0 {
+					texts := make([]string, len(t1))
+					for i := range t1 {
+						texts[i] = hx(t1[i])
+					}
+					e.emit(src+"#prt", "prt", origin, hx(src), strings.Join(a0, "|"), strings.Join(a1, "|"), strings.Join(texts, "|"))
+				} else {
+					e.count("prt-not-comparable")
+				}
+			}
 			return
 		}
 		g1S := "ERR"
@@ -249,6 +293,7 @@ func runFmt(e *emitter, tier string, seed uint64, prop string) {
 	agg := map[string]int{}
 	for i := 0; i < n; i++ {
 		g := newTgen(r, 2+r.intn(3))
+		g.plain = prop == "C09" && i%2 == 0 // half of the C09 inputs stay inside the printer model's fragment
 		src := g.file()
 		if r.chance(1, 10) {
 			src = strings.ReplaceAll(src, "\n", "\r\n")
